@@ -20,31 +20,37 @@ import c09_gen as g  # noqa: E402
 
 CLAIMED = True
 LEVEL = "proof"
-TECHNIQUE = ("Lean 4 proof about a hand transcription of XPath::stepPattern/doStepPredicate/handleFoundIndex/step and of the "
-             "pattern compiler's op-code assignment, against the XSLT 5.2 definition (exists ancestor-or-self selecting); "
-             "correspondence run against the real compiler, XPath::getMatchScore and XPath::execute on generated "
-             "patterns x all nodes of generated documents")
-LEVEL_TEXT = ("Machine-checked, for every well-formed document and node, no bound on steps/predicates/size/depth, and for every "
-              "variant of the code (as found / with the proposed repairs; the variant of the tree is probed on the real "
-              "library): (i) match <=> exists ancestor-or-self selecting, for every union of multi-step patterns that are "
-              "relative or '//'-leading with every '//' before every '/', or absolute with '/' only, with child-axis steps "
-              "(any lists of [k] [last()] [position()=k] [position()!=last()] [@x] [x] [not(@x)]) and an optional final "
-              "attribute step (match_iff_select_partial: exactly where the no-backtracking any-ancestor loop is harmless); "
-              "(ii) with the backtracking repair the same for any order of separators and any lead "
-              "(match_iff_select_backtracking_partial); (iii) as found, a reported match is always a selected node on "
-              "relative/'//'-leading patterns (match_implies_select_partial); (iv) one matcher step = the forward step "
-              "from the parent, handleFoundIndex is exact, the forward step() equals the XPath step, unions match iff an "
-              "alternative does. The full statement is false of the code as found: five *_counterexample theorems, each "
-              "replayed on the real library; repaired_witnesses / backtracking_witnesses show them gone under the proposed "
-              "repairs. The transcription (recursion, any-ancestor loop, scoreHolder, early returns, op-code assignment) "
-              "is tied to the working tree by comparing op codes, XPath::getMatchScore of every node and the expression "
-              "engine's answer for every node with the compiled Lean model; template match, xsl:key match, xsl:number "
-              "count and key()-leading patterns are observed through stylesheets.")
+TECHNIQUE = ("Lean 4 proof about a hand transcription of the pattern compiler's op-code assignment (branch by branch) and of "
+             "XPath::stepPattern / doStepPredicate / handleFoundIndex / step / the union and per-alternative getMatchScore "
+             "entry points, against the XSLT 1.0 5.2 definition (some ancestor-or-self selects the node); correspondence "
+             "run against the real compiler, XPath::getMatchScore and XPath::execute on generated patterns x all nodes "
+             "of generated documents, plus stylesheet-level use sites")
+LEVEL_TEXT = ("Machine-checked for the tree as it is now (all repairs found by this check are in /repo; the variant of the "
+              "tree is probed on the real library on every run): match_iff_select_repaired — XPath::getMatchScore reports "
+              "a match exactly when the pattern, evaluated as an expression from some ancestor-or-self, selects the node — "
+              "for EVERY pattern of the modelled grammar, every well-formed document, every node, with no bound on steps, "
+              "predicates, alternatives, size or depth. Modelled grammar: unions of '/', relative, '/'- and '//'-leading "
+              "paths; any number of steps separated by '/' or '//'; axes child/attribute, abbreviated or spelled out "
+              "(child::, attribute::); node tests NCName, *, prefix:NCName, prefix:*, text(), comment(), "
+              "processing-instruction(), processing-instruction('lit'), node(); any lists of the predicates [k], [last()], "
+              "[position()=k], [position()!=last()], [position()<last()], [last()=k], [last()>k], [last()-1], [@x], [x], "
+              "[not(@x)]; and id()/key()-leading paths (idkey_match_iff_select). Further theorems: the per-alternative "
+              "entry point and the union (alternative_entry_point, union_first_match), explicit axes compile like "
+              "abbreviated ones in every compiler branch (explicit_axis_irrelevant), one matcher step = the forward step "
+              "from the parent and handleFoundIndex is exact (step_matches_iff_selected, handleFoundIndex_spec, "
+              "fwdStep_eq_spec). For the code as found the statement was false: five *_counterexample theorems, the "
+              "classes where it held anyway (match_iff_select_partial, match_implies_select_partial), and "
+              "repaired_witnesses / backtracking_witnesses. The transcription is tied to the working tree by comparing, for "
+              "every generated (pattern, document): step and predicate op codes, the score of every node from both entry "
+              "points, independence of the caller's context node list, and the expression engine's answer for every node.")
 LEVEL_NOTE = ("Trusted: Lean kernel; axioms propext/Classical.choice/Quot.sound only; the hand transcription (checked by "
-              "the correspondence run, bounded by generator coverage); harness/c09_patterns.cpp and checks/c09.py. "
-              "Modelled, not verified: tokenizer/parser of the pattern text (only the op-code assignment is modelled and "
-              "compared), namespaces and namespace-declaration attributes, id()/key() steps, whitespace stripping, "
-              "Xerces/XalanSourceTree DOM navigation. The full property is false of the unchanged code (known findings).")
+              "the correspondence run, bounded by generator coverage: ~32 000 cases quick, ~1.09 M thorough incl. small-scope "
+              "exhaustive); harness/c09_patterns.cpp, checks/c09.py, gen/c09_gen.py. Outside the modelled grammar, hence "
+              "outside the theorem: predicate bodies other than the listed shapes (general XPath inside [...]), key() as a "
+              "leading step at API level (its matcher code is the id() code, covered; key()-led patterns, template match, "
+              "xsl:key match, xsl:number count/from are observed through stylesheets only), unions with an id()/key() "
+              "alternative, namespace nodes, whitespace stripping, result tree fragments, the Xerces-wrapper DOM. Modelled, "
+              "not verified: tokenizer/parser beyond the compared op-code assignment, key-table lookup, DOM navigation.")
 DESIGN_REF = "DESIGN.md section 5, C09; design/C09.md"
 
 THEOREMS = [
@@ -67,6 +73,7 @@ THEOREMS = [
     "XalanModel.Props.C09.match_iff_select_repaired",
     "XalanModel.Props.C09.idkey_match_iff_select",
     "XalanModel.Props.C09.explicit_axis_irrelevant",
+    "XalanModel.Props.C09.alternative_entry_point",
 ]
 
 
@@ -116,10 +123,10 @@ def parse_reply(line):
     if line is None or not line.startswith("pat "):
         return None
     f = line.split(" ")
-    if (len(f) < 6 or not f[-1].startswith("s=") or not f[-2].startswith("m=") or not f[-3].startswith("amb=")
-            or not f[-4].startswith("codes=")):
+    if (len(f) < 7 or not f[-1].startswith("s=") or not f[-2].startswith("m=") or not f[-3].startswith("alts=")
+            or not f[-4].startswith("amb=") or not f[-5].startswith("codes=")):
         return None
-    return dict(text=" ".join(f[1:-4]), codes=f[-4][6:], amb=f[-3][4:], m=f[-2][2:], s=f[-1][2:])
+    return dict(text=" ".join(f[1:-5]), codes=f[-5][6:], amb=f[-4][4:], alts=f[-3][5:].split(","), m=f[-2][2:], s=f[-1][2:])
 
 
 def violations(rep):
@@ -130,6 +137,14 @@ def violations(rep):
             out.append((i, "missed"))
         elif m != "0" and s == "0":
             out.append((i, "spurious"))
+    # per-alternative entry point: the union's score is that of the first alternative with a score; no alternative
+    # past the last one
+    alts = rep.get("alts") or []
+    if alts:
+        for i, m in enumerate(rep["m"]):
+            first = next((a[i] for a in alts[:-1] if i < len(a) and a[i] != "0"), "0")
+            if first != m or (i < len(alts[-1]) and alts[-1][i] != "0"):
+                out.append((i, "alternative"))
     # the score must not depend on the caller's context node list (all nodes vs the node alone)
     for i, a in enumerate(rep.get("amb", "")):
         if a != "0":
@@ -406,8 +421,9 @@ def gen_fn_patterns(r, k):
 
 def use_site_stylesheet(pats, fnpats=()):
     """templates (one mode per pattern) and xsl:key declarations with match=P; for every node of the document one
-    output line: kind, then per pattern three digits: did the template fire, is the node in the key, does
-    xsl:number level="single" count=P find a node to count (the node or an ancestor matches P)"""
+    output line: kind, then per pattern four digits: did the template fire, is the node in the key, does
+    xsl:number level="single" count=P find a node to count (the node or an ancestor matches P), and the same with
+    from=Q (Q the next pattern of the case: the walk up stops at the nearest proper ancestor matching Q)"""
     o = [XSL_HEAD]
     for j, P in enumerate(pats):
         o.append('<xsl:key name="k%d" match="%s" use="1"/>' % (j, xml_escape(g.render_pattern(P))))
@@ -420,6 +436,10 @@ def use_site_stylesheet(pats, fnpats=()):
         # xsl:number level="single" count="P": non-empty exactly when the node or an ancestor matches P
         body.append('<xsl:variable name="c%d"><xsl:number level="single" count="%s"/></xsl:variable>'
                     '<xsl:value-of select="number(string-length($c%d) &gt; 0)"/>' % (j, xml_escape(g.render_pattern(pats[j])), j))
+        # … with from="Q" (Q = the next pattern of the case): only the ancestors below the nearest ancestor matching Q
+        body.append('<xsl:variable name="d%d"><xsl:number level="single" count="%s" from="%s"/></xsl:variable>'
+                    '<xsl:value-of select="number(string-length($d%d) &gt; 0)"/>' % (
+                        j, xml_escape(g.render_pattern(pats[j])), xml_escape(g.render_pattern(pats[(j + 1) % len(pats)])), j))
     # id()/key() patterns: template fires (f<0/1>) vs the defining expression evaluated in the same run (d<0/1>)
     if fnpats:
         body.append('<xsl:variable name="n" select="."/>')
@@ -524,7 +544,7 @@ def use_sites(ctx, cases, replies, work, limit):
                                     doc=g.xml_of(doc), pattern=t, node=i,
                                     what="template match fired=%s, defining expression selects=%s" % (fj[0], fj[1])))
             for j, P in enumerate(pats):
-                if j >= len(f) or len(f[j]) != 3 or any(ch not in "01" for ch in f[j]):
+                if j >= len(f) or len(f[j]) != 4 or any(ch not in "01" for ch in f[j]):
                     bad.append(dict(site="template", doc=g.xml_of(doc), pattern=g.render_pattern(P), node=i,
                                     what="neither the pattern's template nor the low-priority node()|@*|/ template "
                                          "fired (a built-in rule ran): field %r" % (f[j] if j < len(f) else None)))
@@ -538,8 +558,22 @@ def use_sites(ctx, cases, replies, work, limit):
                     anc.append(x)
                 m_up = any(reps[j]["m"][a] != "0" for a in anc)
                 s_up = any(reps[j]["s"][a] == "1" for a in anc)
+                # count + from (ElemNumber::getMatchingAncestors): walk up from the node; a proper ancestor matching
+                # `from` ends the walk, a node matching `count` is found
+                jq = (j + 1) % len(pats)
+
+                def walk(cnt, frm):
+                    for a in anc:
+                        if a != i and frm(a):
+                            return False
+                        if cnt(a):
+                            return True
+                    return False
+                m_fr = walk(lambda a: reps[j]["m"][a] != "0", lambda a: reps[jq]["m"][a] != "0")
+                s_fr = walk(lambda a: reps[j]["s"][a] == "1", lambda a: reps[jq]["s"][a] == "1")
                 for site, bit, m, sp in (("template", f[j][0] == "1", m, sp), ("key", f[j][1] == "1", m, sp),
-                                         ("number-count", f[j][2] == "1", m_up, s_up)):
+                                         ("number-count", f[j][2] == "1", m_up, s_up),
+                                         ("number-count-from", f[j][3] == "1", m_fr, s_fr)):
                     ctx.evaluations += 0
                     if bit == sp:
                         n_ok += 1
@@ -662,7 +696,7 @@ def whitespace_stream(ctx, harness, cases, work, limit):
             a = parse_reply(out[li] if li < len(out) else None)
             b = parse_reply(out[li + 1] if li + 1 < len(out) else None)
             n += 1
-            if a is None or b is None or (a["codes"], a["m"], a["s"], a["amb"]) != (b["codes"], b["m"], b["s"], b["amb"]):
+            if a is None or b is None or (a["codes"], a["m"], a["s"], a["amb"], a["alts"]) != (b["codes"], b["m"], b["s"], b["amb"], b["alts"]):
                 bad.append(dict(pattern=meta[li][0], spaced=meta[li + 1][1], doc=meta[li][2],
                                 plain=out[li] if li < len(out) else None, with_spaces=out[li + 1] if li + 1 < len(out) else None))
     ctx.extra["whitespace_variations"] = dict(pairs=n, differing=len(bad))
